@@ -8,7 +8,8 @@ B streams: nxml.parse, nxml.get, nxml.getl, nxml.getattr, nxml.getattrl, nxml.fi
 C evaluators (the statement on the real code, ElementTree as the oracle):
            parse_preserves, get_positional, get_attrib_positional, findall_resolves, conditions_exact,
            deep_wildcard, findfirst, in_iff, parse_render (string form == list form, regex groups == tokens),
-           paths_fresh (returned path lists are the caller's: changing them changes no later search on any document)
+           paths_fresh (returned path lists are the caller's: changing them changes no later search on any document),
+           dd_collapse (an expression with runs of '**' steps == the expression with the runs collapsed, string and list form)
 Tags of documents and expressions include XML names with '-', '.', a non-ASCII letter and prefix pairs (item / item-id).
 """
 import ast
@@ -54,10 +55,16 @@ MANIFEST = dict(
          "'*' or '**', idx absent/[*]/[i], op = or !=, value non-empty without quotes and '/') whose text contains no '**/**' "
          "(C18_parse_render_noDD: structurally, no plain '**' token directly followed by a '**...' token), "
          "the '**/**' loop + path split + '..' test + step parser (which stands for the regex) return exactly the tokens, so "
-         "findall(string) is findall(list of rendered steps). The step regex is replaced by a hand-written parser validated "
-         "against the regex and the re function (fullmatch) read from the source, also on every rendered grammar step; the '**/**' collapse itself, "
+         "findall(string) is findall(list of rendered steps). The '**/**' collapse itself (Proofs/NXmlDD.lean, unbounded in the length of the text): "
+         "C18_dd_collapse_idem (for EVERY text the replace loop ends with a text without '**/**' - not the join of any step list with a '**' "
+         "directly followed by a '**...' step -, is idempotent, and equals a normal form that does not depend on str.replace's strategy), "
+         "C18_dd_collapse_same_result / C18_dd_collapse_one (a run of k+1 '**' steps anywhere in a text, or one '**/**' anywhere, "
+         "gives exactly the findall / findfirst / in result of the text with a single '**'), C18_parse_render_dd (+C18_dd_collapse_tokens: "
+         "for every non-empty grammar expression, '**/**' allowed, findall(string) reads the token list with every plain '**' before a "
+         "'**...' token dropped and is findall(list of its rendered steps)). The step regex is replaced by a hand-written parser validated "
+         "against the regex and the re function (fullmatch) read from the source, also on every rendered grammar step; "
          "quoted/==/<> condition spellings, int()/str() and non-grammar strings are covered by correspondence streams only; "
-         "all nine statements are executed on the real code with ElementTree as the oracle.",
+         "the nine statements and the collapse are executed on the real code with ElementTree as the oracle.",
     note="see notes/C18.md for the exact list of proved theorems and what stays differential only",
     design_ref="5/C18",
 )
@@ -660,6 +667,65 @@ def ev_parse_render(c):
     return None
 
 
+def collapse_dd(toks):
+    """`collapseDD` of Proofs/NXmlDD.lean: a plain '**' token directly followed by a '**...' token is dropped"""
+    return [t for i, t in enumerate(toks)
+            if not (t == ["**", None, None] and i + 1 < len(toks) and toks[i + 1] is not None and toks[i + 1][0] == "**")]
+
+
+def inflate_dd(rng, toks):
+    """runs of plain '**' tokens put in front of the '**...' tokens of a grammar expression (or, when there is none, a run
+    of two or more somewhere)"""
+    out, done = [], False
+    for t in toks:
+        if t is not None and t[0] == "**" and rng.random() < 0.7:
+            out.extend([["**", None, None] for _ in range(rng.choice([1, 1, 2, 3, 5]))])
+            done = True
+        out.append(t)
+    if not done:
+        i = rng.randrange(len(out) + 1)
+        out[i:i] = [["**", None, None] for _ in range(rng.choice([2, 2, 3, 4]))]
+    return out
+
+
+def _same_found(a, b):
+    same = a[0] == b[0] and (a[0] != "ok" or (a[1] is None) == (b[1] is None))
+    if same and a[0] == "ok" and a[1] is not None:
+        same = len(a[1]) == len(b[1]) and all(x[0] == y[0] and (x[1] is y[1] or (x[1] == y[1] and not isinstance(x[1], list))) for x, y in zip(a[1], b[1]))
+    return same
+
+
+def ev_dd_collapse(c):
+    """C18_dd_collapse_same_result / C18_parse_render_dd on the real code: a grammar expression with runs of '**' steps
+    gives what the expression with every run collapsed gives - string form and list form of the collapsed tokens, both
+    find_first modes (same pairs, same order, values identical), findfirst, `in`; the collapsed text has no '**/**'"""
+    toks = c.get("ddtoks")
+    if not (valid_toks(toks) and toks and all(wf_tok(t) for t in toks)):
+        return None
+    _, doc = doc_of(c)
+    xp = render_expr(toks)
+    col = collapse_dd(toks)
+    xpc = render_expr(col)
+    if "**/**" in xpc or collapse_dd(col) != col:
+        return {"xp": xp, "collapsed": xpc, "why": "the collapsed token list still renders a '**/**'"}
+    steps = [render_tok(t) for t in col]
+    for ff in (False, True):
+        a = core.call(doc.findall, xp, [], ff)
+        b = core.call(doc.findall, xpc, [], ff)
+        l = core.call(doc.findall, list(steps), [], ff)
+        if not (_same_found(a, b) and _same_found(a, l)):
+            return {"find_first": ff, "xp": xp, "collapsed": xpc, "run": repr(a)[:200], "collapsed_result": repr(b)[:200], "list": repr(l)[:200]}
+    a = core.call(doc.findfirst, xp)
+    b = core.call(doc.findfirst, xpc)
+    if not (a[0] == b[0] and (a[0] != "ok" or (bool(a[1]) == bool(b[1]) and (not a[1] or (a[1][0] == b[1][0] and (a[1][1] is b[1][1] or a[1][1] == b[1][1])))))):
+        return {"xp": xp, "collapsed": xpc, "findfirst": repr(a)[:200], "findfirst_collapsed": repr(b)[:200]}
+    a = core.call(lambda: xp in doc)
+    b = core.call(lambda: xpc in doc)
+    if a[0] != b[0] or (a[0] == "ok" and bool(a[1]) != bool(b[1])):
+        return {"xp": xp, "collapsed": xpc, "in": repr(a)[:100], "in_collapsed": repr(b)[:100]}
+    return None
+
+
 def ev_findall_resolves(c):
     root, doc = doc_of(c)
     for ff in (False, True):
@@ -806,6 +872,7 @@ EVALS = {
     "in_iff": ev_in_iff,
     "get_attrib_positional": ev_get_attrib_positional,
     "parse_render": ev_parse_render,
+    "dd_collapse": ev_dd_collapse,
 }
 
 
@@ -1159,6 +1226,17 @@ def run(ctx):
     ctx.evaluate("in_iff", fcases + scases + qcases, ev_in_iff, in_known=ik_a, nontrivial=nt)
     ctx.evaluate("get_attrib_positional", docs_only[::2], ev_get_attrib_positional, in_known=ik_c, nontrivial=lambda c: nt(c) and has_attrib(c["doc"]))
     ctx.evaluate("parse_render", qcases, ev_parse_render, nontrivial=nt)
+    rng = ctx.rng("ddruns")
+    ddcases = []
+    for c in qcases[::2]:
+        dd = inflate_dd(rng, c["toks"])
+        ddcases.append({"doc": c["doc"], "pretty": c["pretty"], "ddtoks": dd, "xp": render_expr(dd)})
+    dd_doc = ["r", None, [], [["a", None, [], [["c", None, [], [["b", "1", [], []], ["d", None, [], [["b", "3", [], []]]]]], ["b", "2", [], []]]], ["b", "4", [], []]]]
+    S2 = ["**", None, None]
+    for toks in ([S2, S2, ["b", None, None]], [["a", None, None], S2, S2, S2, ["b", None, None]], [S2, S2, S2], [["a", None, None], S2, S2, ["**", 0, None], ["b", None, None]],
+                 [S2, S2, ["**", None, ["=", "3"]], None], [S2, S2, None, S2, S2, ["b", 1, None]]):
+        ddcases.append({"doc": dd_doc, "pretty": False, "ddtoks": toks, "xp": render_expr(toks)})
+    ctx.evaluate("dd_collapse", ddcases, ev_dd_collapse, nontrivial=lambda c: nt(c) and "**/**" in c["xp"])
     ctx.evaluate("paths_fresh", fcases[::2] + qcases[::2], ev_paths_fresh, nontrivial=lambda c: nt(c) and ".." in c.get("xp", ""))
 
     # ---- distribution -------------------------------------------------------
